@@ -23,13 +23,15 @@ VProj(obs) == [s \in Slots |-> IF obs[s].ex THEN [i |-> obs[s].i, v |-> IF obs[s
 VConsistent(obs) ==
   \A s \in Slots : obs[s].ex =>
     LET x == obs[s] IN
-    /\ x.i \in {-1, 0, 1}
+    /\ x.i \in {-1, 0, 1, 2}
     /\ x.empty <=> x.i = -1
     /\ x.vc = 1 /\ x.vt = x.i                      \* Visit calls the visitor exactly once, with the active element or EmptyVariant
     /\ x.ga <=> x.i = 0                            \* get<T>() is non-null exactly when T is active
-    /\ x.gb <=> x.i = 1
+    /\ x.gi <=> x.i = 1
+    /\ x.gb <=> x.i = 2
     /\ x.isa <=> x.i = 0
-    /\ x.isb <=> x.i = 1
+    /\ x.isi <=> x.i = 1
+    /\ x.isb <=> x.i = 2
 OProj(obs) == [s \in Slots |-> IF obs[s].ex THEN (IF obs[s].empty THEN OEmpty ELSE OVal(obs[s].val)) ELSE None]
 OConsistent(obs) == \A s \in Slots : obs[s].ex => (obs[s].bool <=> ~obs[s].empty)
 RProj(obs) == [s \in Slots |-> IF obs[s].ex THEN (IF obs[s].hv THEN [s |-> "val", v |-> obs[s].val]
@@ -71,6 +73,9 @@ OFold(e, pre, i) ==
          \cup Tag(o.dd = 0, "double-destruction:" \o o.op)
          \cup Tag(o.du = 0, "dead-element-used:" \o o.op)
          \cup (IF o.op = "take" /\ ~o.threw THEN Tag(Has(o, "taken") /\ o.taken = pre[o.o + 1].v, "take") ELSE {})
+         \* moving from an object by assignment leaves it empty - also when the element types differ
+         \cup (IF o.op = "assign_conv_move" THEN Tag(o.src_after_empty, "converting-move-source-not-emptied") ELSE {})
+         \cup (IF o.op = "assign_conv_copy" THEN Tag(o.src_after_empty = o.srcempty, "converting-copy-changed-source") ELSE {})
          \cup OFold(e, post, i + 1)
 
 RFold(e, pre, i) ==
